@@ -40,6 +40,23 @@ pub enum Book {
     B5,
     /// two special orders: IC(2,3) and RS(3,6,thr 2,amt 2,auto)
     B6,
+    /// a level that is not fresh: S10#1 S5#2 S3#3, then (before the threads start) #3 is cancelled and #1 is
+    /// amended to the quantity it already has - the ticket queue holds a stale and a duplicate ticket
+    B7,
+}
+
+/// operations applied to the book before the threads start (start from a non-initial state)
+pub fn book_prelude(b: Book) -> Vec<OrderUpdate> {
+    match b {
+        Book::B7 => vec![
+            OrderUpdate::Cancel { order_id: oid(3) },
+            OrderUpdate::UpdateQuantity {
+                order_id: oid(1),
+                new_quantity: 10,
+            },
+        ],
+        _ => vec![],
+    }
 }
 
 pub const BOOKS4: [Book; 4] = [Book::B1, Book::B2, Book::B3, Book::B4];
@@ -52,6 +69,11 @@ pub fn book_orders(b: Book) -> Vec<Ord_> {
         Book::B3 => vec![mk_ts(Tmpl::RS36, 1, p, 1), mk_ts(Tmpl::S5, 2, p, 2)],
         Book::B4 => vec![mk_ts(Tmpl::RSn, 1, p, 1), mk_ts(Tmpl::S5, 2, p, 2)],
         Book::B6 => vec![mk_ts(Tmpl::IC23, 1, p, 1), mk_ts(Tmpl::RS36, 2, p, 2)],
+        Book::B7 => vec![
+            mk_ts(Tmpl::S10, 1, p, 1),
+            mk_ts(Tmpl::S5, 2, p, 2),
+            mk_ts(Tmpl::S3, 3, p, 3),
+        ],
         Book::B5 => vec![
             mk_ts(Tmpl::IC23, 1, p, 1),
             mk_ts(Tmpl::S5, 2, p, 2),
@@ -249,6 +271,9 @@ pub fn execute(prog: &Program, prefix: &[u8], cfg: &ExecCfg) -> Exec {
     // book (step 0, harness op 0)
     for o in book_orders(prog.book) {
         level.add_order(o);
+    }
+    for u in book_prelude(prog.book) {
+        let _ = level.update_order(u);
     }
     let shared = Rc::new(Shared {
         level,
@@ -488,9 +513,18 @@ pub fn evaluate(prog: &Program, ex: &Exec, want_c14: bool) -> Vec<Finding> {
         }
         let id = key_id(&e.ev.key);
         let who = (e.tid, e.opi);
+        // the book and its prelude (harness, op 0): what the prelude takes out is not supplied to the threads
+        let setup = who == (-1, 0);
         match e.ev.kind {
             Kind::Insert => {
                 let st = *state.get(&id).unwrap_or(&St::Absent);
+                if setup {
+                    if let St::Held(h, _) = st {
+                        if h == who {
+                            *supplied.entry(id).or_default() += e.ev.vis as i128 + e.ev.hid as i128;
+                        }
+                    }
+                }
                 if e.ev.found {
                     add("C03", "overwrite", false, format!(
                         "a map insert of #{id} replaced a resting version (an order version was lost / duplicated)"));
@@ -517,6 +551,9 @@ pub fn evaluate(prog: &Program, ex: &Exec, want_c14: bool) -> Vec<Finding> {
                     let st = *state.get(&id).unwrap_or(&St::Absent);
                     if st != St::InMap(e.ev.vis, e.ev.hid) {
                         ledger_ok = false;
+                    }
+                    if setup {
+                        *supplied.entry(id).or_default() -= e.ev.vis as i128 + e.ev.hid as i128;
                     }
                     links.push(Link {
                         id,
@@ -858,7 +895,11 @@ pub fn evaluate(prog: &Program, ex: &Exec, want_c14: bool) -> Vec<Finding> {
     {
         let adds = book_orders(prog.book).len()
             + prog.threads.iter().flatten().filter(|o| matches!(o, COp::Add | COp::AddIce)).count();
-        let removed = ex.results.iter().enumerate().map(|(tid, rs)| {
+        let prelude_removed = book_prelude(prog.book)
+            .iter()
+            .filter(|u| matches!(u, OrderUpdate::Cancel { .. } | OrderUpdate::UpdatePrice { .. }))
+            .count();
+        let removed = prelude_removed + ex.results.iter().enumerate().map(|(tid, rs)| {
             rs.iter().enumerate().filter(|(i, r)| {
                 matches!(prog.threads[tid][*i], COp::Cancel(_) | COp::Move(_))
                     && matches!(r, OpResult::Updated(UpdObs::Order(_)))
